@@ -106,7 +106,7 @@ def tree_desc(draw, max_top=3, max_depth=3, allow_empty=False, family_filter=Non
             images[plat] = draw(st.dictionaries(option_name, ini_path, min_size=0, max_size=4))
     stage2 = None
     if draw(st.booleans()):
-        stage2 = {"mainimage": draw(st.one_of(st.none(), ini_path)), "instimage": draw(st.one_of(st.none(), ini_path, st.just("/abs/instimage")))}
+        stage2 = {"mainimage": draw(st.one_of(st.none(), ini_path)), "instimage": draw(st.one_of(st.none(), ini_path))}
     media = None
     if draw(st.integers(0, 2)) == 0:
         total = draw(st.integers(1, 9))
